@@ -286,6 +286,12 @@ def tick_arch_reason(facts):
             calls = [blk["term"] for blk in tick["blocks"] if blk["term"]["k"] == "call" and (blk["term"].get("resolved") or blk["term"].get("fn")) == "Nucleo::<T>::tick_inner"]
             if not calls:
                 why = "tick does not call tick_inner"
+            elif len(calls) != 2:
+                why = "tick calls tick_inner at %d places instead of two (one pass with the `canceled` value, one follow-up pass)" % len(calls)
+            else:
+                bidx = [l for l in range(1, ti.get("arg_count", 0) + 1) if ti["locals"][l]["ty"] == "bool"][0] - 1
+                if all("const" in c["args"][bidx] for c in calls if len(c.get("args", [])) > bidx):
+                    why = "both tick_inner calls pass a constant `canceled` flag (the decision has moved into tick's control flow)"
     if why is None:
         for m in ("State::canceled", "State::cleared"):
             if facts.body("nucleo", m) is None:
